@@ -2,3 +2,4 @@ import BlackItModel
 import BlackIt.Lemmas.Snap
 import BlackIt.Properties.C17
 import BlackIt.Properties.C15
+import BlackIt.Properties.C12
